@@ -302,6 +302,9 @@ func c15Check(x *vsched.Exec, r vsched.Result) []vsched.Finding {
 	if s, ok := x.V["infra"].(string); ok {
 		return []vsched.Finding{{Sig: "INFRA:setup", What: s}}
 	}
+	if f := noProgress(r); f != nil {
+		return f
+	}
 	if r.Truncated || r.Deadlock != "" || len(r.Panics) > 0 {
 		return nil // reported by the explorer itself
 	}
